@@ -233,10 +233,26 @@ theorem sowCombos_refines (o : LcOps C K A V) (fails) (combos : C) (cases : K) (
     (bs nb rem sh : Option Int) (sc0 : Option (Dict V)) (trace) :
     sowCombosLc o fails combos cases constants shArg bsArg nbArg saveFn farmerIsNone hasRunner rc rr bs nb rem sh sc0 trace
       = sowCombosSpec o fails combos cases constants shArg bsArg nbArg saveFn farmerIsNone hasRunner rc rr bs nb rem sh sc0 trace := by
-  simp only [Gen.sowCombosLc, Gen.Default.sowCombosLc, sowCombosSpec, sowTail, sowKwargs, headAttr]
-  cases saveFn <;> cases farmerIsNone <;>
-    simp only [prepareEffs, saveInfoEffs, infoOf, thenK_cons, thenK_nil, List.cons_append, List.nil_append, List.append_nil,
-      Bool.not_true, Bool.not_false, Bool.false_eq_true, if_true, if_false, ite_true, ite_false] <;> lc_cases
+  -- 1st: the body calls `Gen.chooseBatchSettings` (translated); 2nd: it is the committed text, which calls the committed
+  -- `Gen.Default.chooseBatchSettings` (every anchor fell back); 3rd: this body fell back, `choose_batch_settings` is translated
+  -- (both texts unfolded); 4th: case analysis on every `fails` test
+  first
+    | (simp only [Gen.sowCombosLc, Gen.Default.sowCombosLc, sowCombosSpec, sowTail, sowKwargs, headAttr]
+       cases saveFn <;> cases farmerIsNone <;>
+         simp only [prepareEffs, saveInfoEffs, infoOf, thenK_cons, thenK_nil, List.cons_append, List.nil_append, List.append_nil,
+      Bool.not_true, Bool.not_false, Bool.false_eq_true, if_true, if_false, ite_true, ite_false] <;> rfl)
+    | (simp only [Gen.sowCombosLc, Gen.Default.sowCombosLc, Gen.chooseBatchSettings, sowCombosSpec, sowTail, sowKwargs, headAttr]
+       cases saveFn <;> cases farmerIsNone <;>
+         simp only [prepareEffs, saveInfoEffs, infoOf, thenK_cons, thenK_nil, List.cons_append, List.nil_append, List.append_nil,
+      Bool.not_true, Bool.not_false, Bool.false_eq_true, if_true, if_false, ite_true, ite_false] <;> rfl)
+    | (simp only [Gen.sowCombosLc, Gen.Default.sowCombosLc, Gen.chooseBatchSettings, Gen.Default.chooseBatchSettings, sowCombosSpec, sowTail, sowKwargs, headAttr]
+       cases saveFn <;> cases farmerIsNone <;>
+         simp only [prepareEffs, saveInfoEffs, infoOf, thenK_cons, thenK_nil, List.cons_append, List.nil_append, List.append_nil,
+      Bool.not_true, Bool.not_false, Bool.false_eq_true, if_true, if_false, ite_true, ite_false] <;> rfl)
+    | (simp only [Gen.sowCombosLc, Gen.Default.sowCombosLc, sowCombosSpec, sowTail, sowKwargs, headAttr]
+       cases saveFn <;> cases farmerIsNone <;>
+         simp only [prepareEffs, saveInfoEffs, infoOf, thenK_cons, thenK_nil, List.cons_append, List.nil_append, List.append_nil,
+      Bool.not_true, Bool.not_false, Bool.false_eq_true, if_true, if_false, ite_true, ite_false] <;> lc_cases)
 
 /-- **`sow_cases`, as translated from the source, is `sowCasesSpec`** -/
 theorem sowCases_refines (o : LcOps C K A V) (fails) (fnArgs : A) (cases : K) (combos : C) (constants : Dict V)
@@ -244,10 +260,26 @@ theorem sowCases_refines (o : LcOps C K A V) (fails) (fnArgs : A) (cases : K) (c
     (bs nb rem sh : Option Int) (sc0 : Option (Dict V)) (trace) :
     sowCasesLc o fails fnArgs cases combos constants bsArg nbArg saveFn farmerIsNone hasRunner rc rr bs nb rem sh sc0 trace
       = sowCasesSpec o fails fnArgs cases combos constants bsArg nbArg saveFn farmerIsNone hasRunner rc rr bs nb rem sh sc0 trace := by
-  simp only [Gen.sowCasesLc, Gen.Default.sowCasesLc, sowCasesSpec, sowTail, sowKwargs, headAttr]
-  cases saveFn <;> cases farmerIsNone <;>
-    simp only [prepareEffs, saveInfoEffs, infoOf, thenK_cons, thenK_nil, List.cons_append, List.nil_append, List.append_nil,
-      Bool.not_true, Bool.not_false, Bool.false_eq_true, if_true, if_false, ite_true, ite_false] <;> lc_cases
+  -- 1st: the body calls `Gen.chooseBatchSettings` (translated); 2nd: it is the committed text, which calls the committed
+  -- `Gen.Default.chooseBatchSettings` (every anchor fell back); 3rd: this body fell back, `choose_batch_settings` is translated
+  -- (both texts unfolded); 4th: case analysis on every `fails` test
+  first
+    | (simp only [Gen.sowCasesLc, Gen.Default.sowCasesLc, sowCasesSpec, sowTail, sowKwargs, headAttr]
+       cases saveFn <;> cases farmerIsNone <;>
+         simp only [prepareEffs, saveInfoEffs, infoOf, thenK_cons, thenK_nil, List.cons_append, List.nil_append, List.append_nil,
+      Bool.not_true, Bool.not_false, Bool.false_eq_true, if_true, if_false, ite_true, ite_false] <;> rfl)
+    | (simp only [Gen.sowCasesLc, Gen.Default.sowCasesLc, Gen.chooseBatchSettings, sowCasesSpec, sowTail, sowKwargs, headAttr]
+       cases saveFn <;> cases farmerIsNone <;>
+         simp only [prepareEffs, saveInfoEffs, infoOf, thenK_cons, thenK_nil, List.cons_append, List.nil_append, List.append_nil,
+      Bool.not_true, Bool.not_false, Bool.false_eq_true, if_true, if_false, ite_true, ite_false] <;> rfl)
+    | (simp only [Gen.sowCasesLc, Gen.Default.sowCasesLc, Gen.chooseBatchSettings, Gen.Default.chooseBatchSettings, sowCasesSpec, sowTail, sowKwargs, headAttr]
+       cases saveFn <;> cases farmerIsNone <;>
+         simp only [prepareEffs, saveInfoEffs, infoOf, thenK_cons, thenK_nil, List.cons_append, List.nil_append, List.append_nil,
+      Bool.not_true, Bool.not_false, Bool.false_eq_true, if_true, if_false, ite_true, ite_false] <;> rfl)
+    | (simp only [Gen.sowCasesLc, Gen.Default.sowCasesLc, sowCasesSpec, sowTail, sowKwargs, headAttr]
+       cases saveFn <;> cases farmerIsNone <;>
+         simp only [prepareEffs, saveInfoEffs, infoOf, thenK_cons, thenK_nil, List.cons_append, List.nil_append, List.append_nil,
+      Bool.not_true, Bool.not_false, Bool.false_eq_true, if_true, if_false, ite_true, ite_false] <;> lc_cases)
 
 /-- **`sow_samples`, as translated**: the Sampler generates the cases, then it is `sow_cases` with them (no combos, the
 batch settings of the call left alone) -/
@@ -257,7 +289,9 @@ theorem sowSamples_refines (o : LcOps C K A V) (fails) (n : Int) (combos : C) (c
       = thenK (attempt fails [.parse .genCases] trace) (bs, nb, rem, sh, sc0) fun t =>
           sowCasesLc o fails (o.genFnArgs n combos) (o.genCases n combos) o.noneC constants none none
             saveFn farmerIsNone hasRunner rc rr bs nb rem sh sc0 t := by
-  simp only [Gen.sowSamplesLc, Gen.Default.sowSamplesLc, thenK_cons, thenK_nil]
+  first
+    | (simp only [Gen.sowSamplesLc, Gen.Default.sowSamplesLc, thenK_cons, thenK_nil]; done)
+    | (simp only [Gen.sowSamplesLc, Gen.Default.sowSamplesLc, Gen.sowCasesLc, thenK_cons, thenK_nil]; done)
 
 /-! ## reaping -/
 
@@ -300,9 +334,15 @@ def reapSpec (fails : LEff C K A V → Bool) (info : InfoRec C K A V) (cleanUp :
       attempt fails ([.gather args] ++ (if runner = .comboRunnerToDs then [.label] else []) ++ [.reaperExit] ++
         (if Crop.cleanUpResolved cleanUp allowIncomplete then [.deleteAll] else []) ++ post) t
 
+/-- the committed text of `calc_clean_up_default_res` (what the committed texts of the reap methods call) -/
+theorem calcCleanUp_default_refines (cleanUp : Option Bool) (allowIncomplete : Bool) :
+    Gen.Default.calcCleanUp cleanUp allowIncomplete = .ok (some (Crop.cleanUpResolved cleanUp allowIncomplete), allowIncomplete) := by
+  cases cleanUp <;> cases allowIncomplete <;>
+    simp [Gen.Default.calcCleanUp, Crop.cleanUpResolved, Gen.cleanUpDefault, Gen.Default.cleanUpDefault]
+
 macro "reap_refine" info:ident cu:ident ai:ident : tactic =>
   `(tactic| (
-    simp only [Refine.calcCleanUp_refines, reapSpec, reapArgsOf, getKey]
+    simp only [Refine.calcCleanUp_refines, calcCleanUp_default_refines, reapSpec, reapArgsOf, getKey]
     generalize Crop.cleanUpResolved $cu $ai = cur
     obtain ⟨ic, ik, ifa, ibs, inb, irem, ish, ifm, ics⟩ := $info
     cases $ai:ident <;> cases cur <;> cases inb <;> cases ic <;> cases ik <;>
